@@ -88,3 +88,56 @@ func init() {
 		return Tuple{e.newBig(&bigVal{n.w, r, false}), Iface{}}
 	})
 }
+
+// ---- clock: time.Now returns a time.Time built from (unix seconds, nanoseconds).  Concrete and advancing
+// by a fixed step when the harness called verifrt.SetClock, otherwise symbolic and non-decreasing.
+type clockState struct {
+	concrete bool
+	sec, ns  int64
+	step     int64
+	lastS    Term
+	lastN    Term
+	have     bool
+}
+
+const unixToInternal = (1969*365 + 1969/4 - 1969/100 + 1969/400) * 86400
+
+func (e *Engine) clock() *clockState {
+	c, _ := e.pathData["clock"].(*clockState)
+	if c == nil {
+		c = &clockState{}
+		e.pathData["clock"] = c
+	}
+	return c
+}
+
+func init() {
+	rtIntrinsics["SetClock"] = func(e *Engine, fr *frame, a []Value) Value {
+		c := e.clock()
+		c.concrete = true
+		c.sec, c.ns, c.step = int64(a[0].(Term).Int()), int64(a[1].(Term).Int()), int64(a[2].(Term).Int())
+		return nil
+	}
+	intrinsics["time.Now"] = func(e *Engine, fr *frame, a []Value) Value {
+		c := e.clock()
+		var sec, ns Term
+		if c.concrete {
+			sec, ns = BV(64, c.sec), BV(64, c.ns)
+			c.ns += c.step
+			for c.ns >= 1000000000 {
+				c.ns -= 1000000000
+				c.sec++
+			}
+		} else {
+			sec, ns = e.envFresh(64, "clock"), e.envFresh(64, "clock")
+			e.assume(And(Sle(BV(64, 0), sec), Slt(sec, BV(64, 1<<31))))
+			e.assume(And(Sle(BV(64, 0), ns), Slt(ns, BV(64, 1000000000))))
+			if c.have {
+				e.assume(Or(Slt(c.lastS, sec), And(Eq(c.lastS, sec), Sle(c.lastN, ns))))
+			}
+			c.lastS, c.lastN, c.have = sec, ns, true
+		}
+		// time.Time{wall: nsec (no monotonic bit), ext: seconds since year 1, loc: nil (UTC)}
+		return Struct{ZExt(Extract(31, 0, ns), 64), Add(sec, BV(64, unixToInternal)), (*Value)(nil)}
+	}
+}
